@@ -30,6 +30,13 @@ def idx {α : Type} [Inhabited α] (xs : List α) (i : Int) : α :=
 /-- `xs * n` -/
 def listMul {α : Type} (xs : List α) (n : Int) : List α := (List.replicate n.toNat xs).flatten
 
+/-- `xs[i] = v` for an index in range (out of range: IndexError — not modelled, the list is unchanged) -/
+def setIdx {α : Type} (xs : List α) (i : Int) (v : α) : List α :=
+  if i < 0 then xs else xs.set i.toNat v
+
+/-- `set(a) == set(b)` -/
+def sameSet {α : Type} [BEq α] (a b : List α) : Bool := a.all (b.contains ·) && b.all (a.contains ·)
+
 /-- truthiness of a value that is `None` or an int (`if not winning_state`) -/
 def truthyOpt : Option Int → Bool
   | none => false
